@@ -732,7 +732,47 @@ func refusedCases(r *hlib.SplitMix64, n int) []e2eCase {
 		w := crossWant(addrs, ports)
 		cs = append(cs, e2eCase{Kind: "e2e", Class: "exclude-ok:" + cmdName(c), Proto: proto, Argv: argv, Want: w, NWant: len(w), Opt: opt, Seed: int64(len(cs))})
 	}
+	// an exclusion list that covers the FIRST address of the target block (only): the rest of the block is still due
+	firstA := tgt.WriteTemp(tmpDir, "exfirst-host.txt", tgt.Dotted(o|16)+"\n")
+	firstB := tgt.WriteTemp(tmpDir, "exfirst-block.txt", tgt.Dotted(o|16)+"/29\n")
+	mkFirst := func(c []string, block bool) {
+		proto, ports := cmdProto(c)
+		file, from := firstA, uint32(1)
+		if block {
+			file, from = firstB, 8
+		}
+		var addrs []uint32
+		for j := from; j < 16; j++ {
+			addrs = append(addrs, (o|16)+j)
+		}
+		argv := append(append([]string{}, c...), "-i", "v0", "--exit-delay", "150ms", "--json", "--exclude", file, tgt.Dotted(o|16)+"/28")
+		w := crossWant(addrs, ports)
+		cs = append(cs, e2eCase{Kind: "e2e", Class: "exclude-ok:" + cmdName(c) + ":first", Proto: proto, Argv: argv, Want: w, NWant: len(w),
+			Opt: map[bool]string{false: "first-host", true: "first-block"}[block], Seed: int64(len(cs))})
+	}
+	mkFirstSocks := func(block bool) {
+		file, from := firstA, uint32(1)
+		if block {
+			file, from = firstB, 8
+		}
+		var addrs []uint32
+		var loc []string
+		for j := uint32(0); j < 16; j++ {
+			loc = append(loc, tgt.Dotted((o|16)+j))
+			if j >= from {
+				addrs = append(addrs, (o|16)+j)
+			}
+		}
+		argv := []string{"socks", "-p", "1080", "-t", "400ms", "-w", "4", "--exit-delay", "100ms", "--exclude", file, tgt.Dotted(o|16) + "/28"}
+		w := crossWant(addrs, []int{1080})
+		cs = append(cs, e2eCase{Kind: "e2e", Class: "exclude-ok:socks:first", Proto: "listen:1080", Argv: argv, Want: w, NWant: len(w),
+			Opt: map[bool]string{false: "first-host", true: "first-block"}[block], Local: strings.Join(loc, ","), SetSem: true, Seed: int64(len(cs))})
+	}
 	pk := packetCommands()
+	mkFirst(pk[1], false) // icmp
+	mkFirst(pk[3], true)  // tcp
+	mkFirst(pk[2], false) // udp
+	mkFirstSocks(true)
 	// quick rotation: every command once, options and kinds of bad line in rotation (none excluded: it hides nothing)
 	for i, c := range pk {
 		mkBad(c, optNames[i%3], badKinds[i%3])
@@ -849,7 +889,10 @@ func refusedCases(r *hlib.SplitMix64, n int) []e2eCase {
 				}
 				mkOK(c, opt)
 			}
+			mkFirst(c, false)
+			mkFirst(c, true)
 		}
+		mkFirstSocks(false)
 		for _, c := range generic {
 			for _, opt := range []string{"rate", "none"} {
 				for _, bad := range badKinds {
